@@ -59,7 +59,7 @@ class C10(Prop):
 
     def generate(self, rng, n, tier):
         for _ in range(n):
-            yield tc.gen_case(rng, {'reacts': ['reraise', 'reraise', 'reraise', 'slow', 'swallow', 'spawn']})
+            yield tc.gen_case(rng)
 
     def run_impl(self, case):
         return tc.run_case(case)
